@@ -14,6 +14,7 @@ Decided statically:
     succeeded; the 'has unknown replicas' flags are only ever raised (constant true) by add_tablet and lowered by maintenance.
 Not decided: the invariant over histories as such, replica contents.
 """
+from ..inline import inline_view
 from ..mir import AnchorLost
 from ..util import df_of, fn_short, in_set, operand_path, path_last, backward_slice, field_writers, _rv_locals, uses_of_local, switch_on, switch_edges
 from .c20 import slice_fields
@@ -351,7 +352,7 @@ def r6(ctx, facts):
 
 
 def check(ctx):
-    facts = ctx.facts("default")
+    facts = inline_view(ctx.facts("default"))
     add = None
     try:
         add = r1(ctx, facts)
